@@ -204,7 +204,7 @@ func compareRuns(name string, lead, other []blockResult) *divergence {
 		case a.Panic != b.Panic:
 			return &divergence{name, a.Height, "panic", a.Panic, b.Panic}
 		case a.BeginDig != b.BeginDig:
-			return &divergence{name, a.Height, "BeginBlock response", a.BeginDig, b.BeginDig}
+			return &divergence{name, a.Height, "BeginBlock response", a.BeginDig + " (base fee " + a.BaseFee + ")", b.BeginDig + " (base fee " + b.BaseFee + ")"}
 		}
 		for j := range a.Txs {
 			if j >= len(b.Txs) {
@@ -240,6 +240,9 @@ type repObs struct {
 	PerturbErrs map[string]string `json:"perturbation_problems,omitempty"` // a perturbation the harness could not perform
 	Probes      []probeObs        `json:"probe_calls,omitempty"`           // what the probe contract saw in delivered transactions (leading replica)
 	BHChecked   int               `json:"blockhash_answers_checked_by_model"`
+	FeeRegime   string            `json:"fee_market_regime"`                 // genesis x/feemarket parameters and consensus Block.MaxGas
+	BaseFees    string            `json:"base_fee_by_block,omitempty"`      // leading replica: height:value[branch of the update]
+	FeeChecked  int               `json:"base_fee_updates_checked_by_model"` // BeginBlock updates re-evaluated by calc_base_fee in Coq
 }
 
 type probeObs struct {
@@ -305,9 +308,10 @@ func repRunCase(id string, in bhInput, gen *bhGenerator, pg *procGen, nrep int, 
 	lead := &histRun{Rep: reps[0]}
 	set := bhInitialValSet(in.Gen)
 	lead.Track = valTracker{sets: [3][]valEntry{nil, set, set}}
+	ft := newFeeTrack(in.Gen)
 	for bi := range in.Blocks {
 		b := &in.Blocks[bi]
-		hooks := &stepHooks{TweakRaw: tweakHeader}
+		hooks := &stepHooks{TweakRaw: tweakHeader, AfterBeginBlock: ft.afterBeginBlock, AfterEndBlock: ft.afterEndBlock}
 		if gen != nil {
 			idx := bi
 			var front, back []bhTx
@@ -429,7 +433,21 @@ func repRunCase(id string, in bhInput, gen *bhGenerator, pg *procGen, nrep int, 
 		}
 	}
 	obs.Perturbed, obs.PerturbErrs = plog.Counts, plog.Errs
+	obs.FeeRegime = "default (base fee 1000000000, denominator 8, elasticity 2, min gas price 0, min gas multiplier 0.5, Block.MaxGas -1)"
+	if f := in.Gen.Fee; f != nil {
+		fj, _ := json.Marshal(f)
+		obs.FeeRegime = string(fj)
+	}
+	var bfs []string
+	for _, st := range ft.Steps {
+		bfs = append(bfs, fmt.Sprintf("%d:%s[%s]", st.Height, st.After, st.Kind))
+	}
+	obs.BaseFees = strings.Join(bfs, " ")
 	c := Case{ID: id, Kind: "replicas", Input: in}
+	c.Tags = append(c.Tags, ft.tags(blocks)...)
+	if gen != nil && gen.fee != nil {
+		c.Tags = append(c.Tags, "fee-regime:"+gen.fee.name)
+	}
 	// the closed formula of the model is for a constant HistoricalEntries: histories that change the staking
 	// parameter on the way are compared between replicas only
 	histConst := true
@@ -444,12 +462,18 @@ func repRunCase(id string, in bhInput, gen *bhGenerator, pg *procGen, nrep int, 
 			}
 		}
 	}
+	bhTerm := "None"
 	if len(bh) > 0 && histConst {
-		c.Coq, obs.BHChecked = coqBhCase(entries, bh)
-		c.CoqList = "bh"
+		var t string
+		t, obs.BHChecked = coqBhCase(entries, bh)
+		bhTerm = "(Some " + t + ")"
 	} else if !histConst {
 		c.Tags = append(c.Tags, "historical-entries-changed-on-the-way")
 	}
+	// every BeginBlock of the leading replica as a fee_obs: the model (calc_base_fee of property C17) must store the same base fee
+	c.Coq = fmt.Sprintf("(%s, %s)", bhTerm, ft.coq())
+	c.CoqList = "rep"
+	obs.FeeChecked = len(ft.Steps)
 	c.Obs = obs
 	c.OracleOK = len(obs.Divergences) == 0 && obs.ChildErr == ""
 	if len(obs.Divergences) > 0 {
@@ -481,6 +505,11 @@ func repRunCase(id string, in bhInput, gen *bhGenerator, pg *procGen, nrep int, 
 			if t.K == "upgrade" {
 				c.Tags = append(c.Tags, "upgrade-"+t.S)
 			}
+			if t.K == "param" && (t.S == "feemarket" || t.S == "consensus") {
+				for _, kv := range t.X {
+					c.Tags = append(c.Tags, "fee-param:"+t.S+"."+kv[0])
+				}
+			}
 		}
 	}
 	okKinds := []string{}
@@ -507,6 +536,9 @@ func repRunCase(id string, in bhInput, gen *bhGenerator, pg *procGen, nrep int, 
 	}
 	if pg != nil && pg.shape != "" {
 		c.Tags = append(c.Tags, "shape:"+pg.shape)
+	}
+	if pg != nil && pg.feeShape != "" {
+		c.Tags = append(c.Tags, "shape:"+pg.feeShape)
 	}
 	nz, z := 0, 0
 	for _, o := range bh {
@@ -584,6 +616,9 @@ func replicasDriver(cfg Config, out *Out) error {
 		}
 		g := newBhGenerator(cr, nb, focus)
 		pg := newProcGen(cr.Fork(), nb, addressable)
+		if g.fee != nil && g.fee.fee != nil && pg.r.Chance(60) {
+			pg.betweenHeavy(g.fee.heavy)
+		}
 		in := bhInput{Gen: g.genesis(), Focus: focus, Proc: pg.proc()}
 		he := pg.entries
 		in.Gen.Hist = &he
